@@ -418,6 +418,7 @@ def case_xdma(case):
 
     desc, used_dims = case[:2]
     body = case[2] if len(case) > 2 else ("mul",)  # kernel of the region: decides which extension is active
+    xzero = frozenset(case[3]) if len(case) > 3 else frozenset()  # operands whose pointer is the constant 0 (generated zeros)
     XBODY = {
         "mul": ("i16", "i16", "%r = kernel.mul %x, %x : i16, i16 -> i16"),
         "add": ("i32", "i32", "%r = kernel.add %x, %x : i32, i32 -> i32"),
@@ -444,7 +445,8 @@ def case_xdma(case):
 
         txt = """
 func.func @f(%p0 : index, %p1 : index) {
-  "snax_stream.streaming_region"(%p0, %p1) <{stride_patterns = [#snax_stream.stride_pattern<ub = [1], ts = [0], ss = [8]>, #snax_stream.stride_pattern<ub = [1], ts = [0], ss = [8]>], accelerator = "snax_xdma", operandSegmentSizes = array<i32: 1, 1>}> ({
+  %zero = arith.constant 0 : index
+  "snax_stream.streaming_region"(OPERAND0, OPERAND1) <{stride_patterns = [#snax_stream.stride_pattern<ub = [1], ts = [0], ss = [8]>, #snax_stream.stride_pattern<ub = [1], ts = [0], ss = [8]>], accelerator = "snax_xdma", operandSegmentSizes = array<i32: 1, 1>}> ({
   ^bb0(%s0 : !dart.stream<TI>, %s1 : !dart.stream<TO>):
     %g = "dart.generic"(%s0) <{library_call = "none"}> ({
     ^bb1(%x : TI, %y : TO):
@@ -456,6 +458,7 @@ func.func @f(%p0 : index, %p1 : index) {
   func.return
 }
 """
+        txt = txt.replace("OPERAND0", "%zero" if 0 in xzero else "%p0").replace("OPERAND1", "%zero" if 1 in xzero else "%p1")
         ti, to, kern = XBODY[body[0]]
         txt = txt.replace("KERNEL", kern.format(*rp) if "{" in kern else kern).replace("TI", ti).replace("TO", to)
         m = Parser(xshim.make_ctx(), txt).parse_module()
@@ -475,7 +478,7 @@ func.func @f(%p0 : index, %p1 : index) {
         acc, pats, srcs, ops = build(getbv)
         ptrs = {k: z3.BitVec(f"ptr{k}", 32) for k in range(2)}
         vals, names, setup, launch, I = eval_setup(ops, {s.res[0]: ptrs[k] for k, s in enumerate(srcs)})
-        exp = streamer_spec(acc, pats, ptrs, set(), xdma=True)
+        exp = streamer_spec(acc, pats, ptrs, set(xzero), xdma=True)
         d = desc or [("r", "nnnnn", 1, ["c"]), ("w", "nnnnn", 1, ["c", "bm"])]
         for name, (_, _, _, opts) in zip(acc.streamer_names, d):
             # bit k of <s>_bypass belongs to the k-th extension of the streamer, the one whose parameter registers
@@ -501,7 +504,7 @@ func.func @f(%p0 : index, %p1 : index) {
             s += "|streamer_without_channel_mask"
         return s
 
-    return run_case(fn, replay, signature=sig, sample=dict(config=str(desc), used_dims=used_dims, kernel=str(body)), key=str(case), max_paths=2000, witness=True)
+    return run_case(fn, replay, signature=sig, sample=dict(config=str(desc), used_dims=used_dims, kernel=str(body), zero_pointer_operands=sorted(xzero)), key=str(case), max_paths=2000, witness=True)
 
 
 # ------------------------------------------------------------------ hwpe_mult (linalg path)
@@ -616,6 +619,10 @@ def run(chk):
         desc = [("r", "n" * rnd.randint(1, 5), 1, rnd.choice([["c"], [], ["c", "maxpool_ext"], ["c", "add_ext"]])),
                 ("w", "n" * rnd.randint(1, 5), 1, rnd.choice([["c", "bm"], ["c"], ["bm"], ["c", "t"], ["c", "memset_ext"]]))]
         xcases.append((desc, (rnd.randint(1, len(desc[0][1])), rnd.randint(1, len(desc[1][1])))))
+    # a reader / writer whose pointer is the constant 0: its own masks are 0, the other streamer's are not
+    for z_ in ((0,), (1,), (0, 1)):
+        xcases.append((None, (2, 2), ("mul",), z_))
+        xcases.append(([("r", "nn", 1, ["c", "bm"]), ("w", "nn", 1, ["c", "bm"])], (1, 2), ("mul",), z_))
     # regions whose kernel one of the streamer's extensions implements (rescale up / down, add), extensions listed
     # before, between and after mask options; near-miss kernels (same operands, other result type) activate nothing
     xbodies = [("mul",), ("add",), ("add64",), ("rescale_down", 7, -3, 1234567, 9), ("rescale_up", -11, 5, 99, 3),
